@@ -112,10 +112,10 @@ ImageOk(d, f) == LET nsI == ApplyOpsNs(nsS, SubSeq(pend, 1, d))
 Dirty == {i \in Range(ns) \cup Range(nsS) : slen[i] < wlen[i]}
 AllCh == UNION {Choices(i) : i \in Dirty}
 \* C02 on the model: every crash image the model allows, at every system-call boundary
-ModelSyncedSurvive == chk => \A d \in 0..Len(pend) : \A f \in [Dirty -> AllCh] :
+ModelSyncedSurviveC == chk => \A d \in 0..Len(pend) : \A f \in [Dirty -> AllCh] :
                                 (\A i \in Dirty : f[i] \in Choices(i)) => ImageOk(d, f)
 \* C03 on the model: every written byte and every directory operation survives
-ModelProcessCrash == chk => LET r == Recover(ns, LAMBDA i : wlen[i])
+ModelProcessCrashC == chk => LET r == Recover(ns, LAMBDA i : wlen[i])
                             IN r.ok /\ (ackedAll # {} => r.db) /\ ackedAll \subseteq r.have
 \* C17: whenever CURRENT is durable in an image it names a complete MANIFEST (part of Recover.ok above)
 
@@ -124,34 +124,34 @@ RECURSIVE ApplyKv(_, _)
 ApplyKv(m, ops) == IF ops = <<>> THEN m ELSE ApplyKv([m EXCEPT ![Head(ops)[1]] = Head(ops)[2]], Tail(ops))
 RECURSIVE FoldFrom(_, _, _)
 FoldFrom(m, b, S) == IF b > Len(Bat) THEN m
-                     ELSE FoldFrom(IF b \in S THEN ApplyKv(m, Bat[b].ops) ELSE m, b + 1, S)
+                     ELSE FoldFrom(TLCEval(IF b \in S THEN ApplyKv(m, Bat[b].ops) ELSE m), b + 1, S)
 Fold(S) == FoldFrom([k \in DKeys |-> 0], 1, S)
 DataOf(pairs) == ApplyKv([k \in DKeys |-> 0], pairs)
 SetOf(s) == {s[j] : j \in 1..Len(s)}
 IsRec == rec.cls # "none"
 PowerLoss == IsRec /\ rec.chain # "max"          \* some power loss in the chain of crashes that led to this image
 \* C05: opening succeeds, nothing damaged, lookups agree with the scan
-RecOpenOk == IsRec => rec.rc = 0 /\ rec.status = 0 /\ rec.bad = 0 /\ rec.getmismatch = 0
+RecOpenOkC == IsRec => rec.rc = 0 /\ rec.status = 0 /\ rec.bad = 0 /\ rec.getmismatch = 0
 \* C02: synced (or log-deleted) acknowledged batches are present after any power loss
-RecSynced == (IsRec /\ rec.rc = 0) => MustSurvive \subseteq SetOf(rec.markers)
+RecSyncedC == (IsRec /\ rec.rc = 0) => MustSurvive \subseteq SetOf(rec.markers)
 \* C03: after a process crash every acknowledged batch is present, and nothing that was not issued
-RecAcked == (IsRec /\ rec.rc = 0 /\ rec.chain = "max") => ackedAll \subseteq SetOf(rec.markers)
-RecNothingElse == (IsRec /\ rec.rc = 0) => SetOf(rec.markers) \subseteq begun
+RecAckedC == (IsRec /\ rec.rc = 0 /\ rec.chain = "max") => ackedAll \subseteq SetOf(rec.markers)
+RecNothingElseC == (IsRec /\ rec.rc = 0) => SetOf(rec.markers) \subseteq begun
 \* C04: whole batches only, in order: the data keys equal the fold of exactly the surviving batches
-RecAtomic == (IsRec /\ rec.rc = 0) => DataOf(rec.data) = Fold(SetOf(rec.markers))
+RecAtomicC == (IsRec /\ rec.rc = 0) => DataOf(rec.data) = Fold(SetOf(rec.markers))
 \* C05: at most a tail of each write-ahead-log segment is dropped
 SegOf(i) == LET RECURSIVE Cat(_) Cat(j) == IF j > Len(M(i).units) THEN <<>> ELSE M(i).units[j][2] \o Cat(j + 1) IN Cat(1)
 IsPrefixSet(S, seg) == \E n \in 0..Len(seg) : S \cap SetOf(seg) = {seg[j] : j \in 1..n}
-RecPrefix == (IsRec /\ rec.rc = 0) =>
+RecPrefixC == (IsRec /\ rec.rc = 0) =>
                \A i \in {x \in Inos : M(x).kind = "log"} : IsPrefixSet(SetOf(rec.markers), SegOf(i))
 \* C05: opening again loses nothing further
-RecAgain == (IsRec /\ rec.rc = 0 /\ "again" \in DOMAIN rec) =>
+RecAgainC == (IsRec /\ rec.rc = 0 /\ "again" \in DOMAIN rec) =>
                /\ rec.again.rc = 0 /\ rec.again.status = 0
                /\ SetOf(rec.again.markers) = SetOf(rec.markers) /\ DataOf(rec.again.data) = DataOf(rec.data)
 \* C05: writes made after recovery take precedence and persist across the next reopen
 RECURSIVE ApplyFollow(_, _)
 ApplyFollow(m, fo) == IF fo = <<>> THEN m ELSE ApplyFollow(ApplyKv(m, Head(fo)[2]), Tail(fo))
-RecFollow == (IsRec /\ rec.rc = 0 /\ "follow" \in DOMAIN rec) =>
+RecFollowC == (IsRec /\ rec.rc = 0 /\ "follow" \in DOMAIN rec) =>
                LET fw == rec.follow
                    want == ApplyFollow(DataOf(rec.data), fw.ops)
                    wantM == SetOf(rec.markers) \cup {fw.ops[j][1] : j \in 1..Len(fw.ops)}
@@ -159,4 +159,17 @@ RecFollow == (IsRec /\ rec.rc = 0 /\ "follow" \in DOMAIN rec) =>
                   /\ DataOf(fw.data) = want /\ SetOf(fw.markers) = wantM
                   /\ fw.reopen.rc = 0 /\ fw.reopen.status = 0
                   /\ DataOf(fw.reopen.data) = want /\ SetOf(fw.reopen.markers) = wantM
+
+\* a violated invariant prints the trace position, so the orchestrator need not wait for TLC to rebuild the behaviour
+ViolAt(name) == PrintT(<<"pr", name, l>>)
+ModelSyncedSurvive == ModelSyncedSurviveC \/ ~ViolAt("ModelSyncedSurvive")
+ModelProcessCrash == ModelProcessCrashC \/ ~ViolAt("ModelProcessCrash")
+RecOpenOk == RecOpenOkC \/ ~ViolAt("RecOpenOk")
+RecSynced == RecSyncedC \/ ~ViolAt("RecSynced")
+RecAcked == RecAckedC \/ ~ViolAt("RecAcked")
+RecNothingElse == RecNothingElseC \/ ~ViolAt("RecNothingElse")
+RecAtomic == RecAtomicC \/ ~ViolAt("RecAtomic")
+RecPrefix == RecPrefixC \/ ~ViolAt("RecPrefix")
+RecAgain == RecAgainC \/ ~ViolAt("RecAgain")
+RecFollow == RecFollowC \/ ~ViolAt("RecFollow")
 =============================================================================
